@@ -81,6 +81,9 @@ def check_pair(rec: Rec, kind: str, base: str, variant: str, origin: str):
 
 
 def replay(rec, case):
+    if case["input"].get("origin") == "configurations":
+        from ._configs import replay as _r
+        return _r(rec, case)
     from ..lib import IBAN, outcome
     i = case["input"]
     if i["kind"] == "generate":
@@ -157,6 +160,19 @@ def shard_country(arg):
                 check_pair(rec, "iban", base, v, "ws-insert")
                 rec.case("iban-ws-insert", (base, v) if w != " " else None)
         rec.exhaustive.append("every whitespace character of W inserted at every position of a valid IBAN per country")
+        if bi == 0:
+            # the same around the other spellings a user copies from paper or a statement: printed groups of four (upper and
+            # lower case) and the lower-case compact form, each with every whitespace character before, after, on both sides,
+            # doubled at the end and in the middle
+            printed = " ".join(base[i:i + 4] for i in range(0, len(base), 4))
+            for form in (printed, printed.lower(), base.lower()):
+                k = len(form) // 2
+                for w in gens.WHITESPACE:
+                    for v in (w + form, form + w, w + form + w, form + w + w, form[:k] + w + form[k:]):
+                        check_pair(rec, "iban", base, v, "ws-affix")
+                        rec.case("iban-ws-affix", (base, v))
+            rec.exhaustive.append("every whitespace character of W before / after / around / doubled after / inside the printed, "
+                                  "lower-case printed and lower-case compact spelling of a valid IBAN per country")
         if bi < 2:
             from .. import dims
             for label, v in dims.whitespace_extremes(base, huge=(cc in ("DE", "GB", "LC", "RU") if "cc" in dir() else False)):
@@ -201,6 +217,13 @@ def shard_bic(arg):
                     v = base[:i] + w + base[i:]
                     check_pair(rec, "bic", base, v, "ws-insert")
                     rec.case("bic-ws-insert", (base, v) if w != " " else None)
+        if n % 10 == 0:
+            printed = " ".join(p for p in (base[:4], base[4:6], base[6:8], base[8:]) if p)
+            for form in (printed, printed.lower(), base.lower()):
+                for w in gens.WHITESPACE:
+                    for v in (w + form, form + w, w + form + w, form + w + w):
+                        check_pair(rec, "bic", base, v, "ws-affix")
+                        rec.case("bic-ws-affix", (base, v))
         if n % 10 == 0:
             from .. import dims
             for label, v in dims.whitespace_extremes(base):
@@ -270,6 +293,8 @@ def run(ctx):
     chunk = max(1, len(sel) // 32)
     ctx.pmap(shard_bic, [(sel[i:i + chunk], ctx.seed, ctx.tier) for i in range(0, len(sel), chunk)])
     ctx.hyp_parallel(strategy, hyp_body, ctx.pick(8000, 300000), name="C10-hyp")
-    ctx.require_classes("iban-ws-extreme", "iban-token-base", "generate-variant", "bic-ws-extreme", "bic-token-base",
+    from ._configs import stage as _config_stage
+    _config_stage(ctx, ['parse', 'bic'])
+    ctx.require_classes("iban-ws-affix", "bic-ws-affix", "iban-ws-extreme", "iban-token-base", "generate-variant", "bic-ws-extreme", "bic-token-base",
                         "iban-ws-insert", "iban-valid-variant", "iban-invalid-variant", "bic-ws-insert", "bic-valid-variant",
                         "bic-invalid-variant", "hyp-iban", "hyp-bic")
